@@ -289,6 +289,321 @@ Proof.
   - vm_compute. repeat split; reflexivity.
 Qed.
 
+(* ================================================================ renaming equivariance of the modelled evaluators
+   For every INJECTIVE renaming f : C -> C of the candidates (the only hypothesis), evaluating the renamed input gives the
+   renamed output - EXACT equality (elected candidates, ties with their members, seat dictionaries, refusals / errors,
+   for STV the whole trace), which is stronger than the comparison the property asks for (ties as sets).
+   Proofs: Proofs/Equivariant.v (equivariant combinators: map / filter / find / fold / flat_map / stable sort-by-key commute with
+   a renaming when their predicates / keys / steps do), Proofs/CondorcetRename_proofs.v, QDRename_proofs.v, STVRename_proofs.v,
+   CardinalRename_proofs.v, PAVRename_proofs.v.
+   Which models consult an ORDER on candidates (the only way a name could matter)?  None of Model/Condorcet.v,
+   QuotaDistributor.v, STV.v, GetNBest.v, HighestAverages.v and none of SPAV / score / MJ in Cardinal.v: candidates are only ever
+   compared with [ceqb] (Pos.eqb); iteration orders are insertion orders of the input (or the explicit [order] of Schulze).
+   The single exception is [pav] (ProportionalApproval): [canon_set] (Pos.ltb) stands for the iteration order of a Python
+   frozenset; C10_pav_iteration_order shows that order is immaterial up to the order of equally placed winners, and
+   C10_rename_pav_exact_refuted that exact equality is indeed lost there (a modelling artefact, not a finding: the
+   implementation iterates the frozenset in hash order and the property allows equally placed winners to swap).
+   Renamings: [renp] pairwise dictionary, [renl] candidate-keyed dictionary, [renkd] result dictionary with Tie keys,
+   [renv] ranked profile (shared ranks member by member), [renap] approval profile, [rens] score profile. *)
+From VL Require Import Model.Cardinal Proofs.Equivariant Proofs.CondorcetRename_proofs Proofs.QDRename_proofs Proofs.STVRename_proofs
+     Proofs.CardinalRename_proofs Proofs.PAVRename_proofs Proofs.ApprovalOrder_proofs.
+From Coq Require Import Lia.
+Close Scope Q_scope.
+Close Scope Z_scope.
+Open Scope nat_scope.
+
+Definition injective (f : C -> C) : Prop := forall a b, f a = f b -> a = b.
+
+(* ---- the Condorcet family (priority 1) *)
+Theorem C10_rename_condorcet_blocks : forall f, injective f -> forall v ties,
+  candidates (renp f v) = map f (candidates v) /\ pairwise_wins (renp f v) ties = map (rp f) (pairwise_wins v ties) /\
+  beat_counts (renp f v) = renl f (beat_counts v) /\ complete (renp f v) = renp f (complete v).
+Proof. intros f Hf v t. exact (condorcet_blocks_ren f Hf v t). Qed.
+
+Theorem C10_rename_condorcet_winner : forall f, injective f -> forall v,
+  condorcet_winner (renp f v) = map f (condorcet_winner v).
+Proof. intros f Hf v. exact (condorcet_winner_ren f Hf v). Qed.
+
+Theorem C10_rename_copeland : forall f, injective f -> forall second_order v n,
+  copeland second_order (renp f v) n = map (ren_res f) (copeland second_order v n).
+Proof. intros f Hf so v n. exact (copeland_ren f Hf so v n). Qed.
+
+Theorem C10_rename_minimax : forall f, injective f -> forall s v n,
+  minimax s (renp f v) n = map (ren_res f) (minimax s v n).
+Proof. intros f Hf s v n. exact (minimax_ren f Hf s v n). Qed.
+
+(* [order] = the iteration order of the candidate set, renamed along *)
+Theorem C10_rename_schulze : forall f, injective f -> forall v order n,
+  schulze (renp f v) (map f order) n = map (ren_res f) (schulze v order n).
+Proof. intros f Hf v o n. exact (schulze_ren f Hf v o n). Qed.
+
+(* no hypothesis on the strengths: also on profiles with equal majorities the renamed run is the renamed result *)
+Theorem C10_rename_ranked_pairs : forall f, injective f -> forall s v n,
+  ranked_pairs s (renp f v) n = ren_cres f (ranked_pairs s v n).
+Proof. intros f Hf s v n. exact (ranked_pairs_ren f Hf s v n). Qed.
+
+Theorem C10_rename_kemeny : forall f, injective f -> forall v n,
+  kemeny (renp f v) n = ren_cres f (kemeny v n).
+Proof. intros f Hf v n. exact (kemeny_ren f Hf v n). Qed.
+
+(* SmithSet (ties = true) and the Schwartz routine (ties = false) *)
+Theorem C10_rename_smith_schwartz : forall f, injective f -> forall v ties,
+  smith_schwartz (renp f v) ties = map f (smith_schwartz v ties).
+Proof. intros f Hf v t. exact (smith_schwartz_ren f Hf v t). Qed.
+
+(* ---- the quota family (priority 2) *)
+Theorem C10_rename_quota_distributor : forall f, injective f ->
+  forall (quota : Q -> Z -> Q) (accept_equal : bool) (pol : policy) (votes : list (C * Q)) (n : Z) (prev caps : list (C * Z)),
+  qd_evaluate quota accept_equal pol (renl f votes) n (renl f prev) (renl f caps)
+  = ren_qd f (qd_evaluate quota accept_equal pol votes n prev caps).
+Proof. intros f Hf quota ae pol votes n prev caps. exact (qd_evaluate_ren f Hf quota ae pol votes n prev caps). Qed.
+
+Theorem C10_rename_largest_remainder : forall f, injective f ->
+  forall (quota : Q -> Z -> Q) (accept_equal : bool) (pol : policy) (votes : list (C * Q)) (n : Z) (prev caps : list (C * Z)),
+  lr_evaluate quota accept_equal pol (renl f votes) n (renl f prev) (renl f caps)
+  = ren_lr f (lr_evaluate quota accept_equal pol votes n prev caps).
+Proof. intros f Hf quota ae pol votes n prev caps. exact (lr_evaluate_ren f Hf quota ae pol votes n prev caps). Qed.
+
+Theorem C10_rename_quota_selector : forall f, injective f ->
+  forall (quota : Q -> Z -> Q) (accept_equal select : bool) (votes : list (C * Q)) (n : Z),
+  qsel_evaluate quota accept_equal select (renl f votes) n = ren_qs f (qsel_evaluate quota accept_equal select votes n).
+Proof. intros f Hf quota ae sel votes n. exact (qsel_evaluate_ren f quota ae sel votes n). Qed.
+
+(* the seats of a candidate read off a result dictionary *)
+Theorem C10_rename_seats : forall f, injective f -> forall d c, kdget (renkd f d) (f c) = kdget d c.
+Proof. intros f Hf d c. exact (kdget_ren f Hf d c). Qed.
+
+(* ---- the transferable-vote count (priority 3): the whole trace - every count's totals and elected, the seats, the stop *)
+Theorem C10_rename_stv : forall f, injective f ->
+  forall (cf : cfg) (votes : list (ballot * Q)) (n : Z) (prev caps : list (C * Z)),
+  stv cf (renv f votes) n (renl f prev) (renl f caps) = ren_trace f (stv cf votes n prev caps).
+Proof. intros f Hf cf votes n prev caps. exact (stv_ren f Hf cf votes n prev caps). Qed.
+
+(* ---- the approval / score family (priority 4) *)
+Theorem C10_rename_spav : forall f, injective f -> forall votes n,
+  spav (renap f votes) n = option_map (map f) (spav votes n).
+Proof. intros f Hf votes n. exact (spav_ren f Hf votes n). Qed.
+
+Theorem C10_rename_score_to_simple : forall f, injective f -> forall cf votes,
+  score_to_simple cf (rens f votes) = ren_inl f (score_to_simple cf votes).
+Proof. intros f Hf cf votes. exact (score_to_simple_ren f Hf cf votes). Qed.
+
+Theorem C10_rename_score_voting : forall f, injective f -> forall cf votes n,
+  score_voting cf (rens f votes) n = ren_rs f (score_voting cf votes n).
+Proof. intros f Hf cf votes n. exact (score_voting_ren f Hf cf votes n). Qed.
+
+Theorem C10_rename_majority_judgment : forall f, injective f -> forall plus cf votes n,
+  majority_judgment plus cf (rens f votes) n = ren_rs f (majority_judgment plus cf votes n).
+Proof. intros f Hf plus cf votes n. exact (majority_judgment_ren f Hf plus cf votes n). Qed.
+
+(* PAV with an explicit iteration order of the candidate set ([pav] = [pav_on] over the sorted list) *)
+Theorem C10_pav_on_canon : forall votes n, pav votes n = pav_on votes (canon_set (flat_map fst votes)) n.
+Proof. exact pav_on_canon. Qed.
+
+Theorem C10_rename_pav_on : forall f, injective f -> forall votes cands n,
+  pav_on (renap f votes) (map f cands) n = ren_ares f (pav_on votes cands n).
+Proof. intros f Hf votes cands n. exact (pav_on_ren f Hf votes cands n). Qed.
+
+(* any two iteration orders of the candidate frozenset (every hash seed): both refuse (tied alternatives), or the two results
+   are all plain winners, position by position of the same shape, with the same elected candidates *)
+Theorem C10_pav_iteration_order : forall votes cands cands' n, Permutation cands cands' ->
+  ares_equiv (pav_on votes cands n) (pav_on votes cands' n).
+Proof. exact pav_on_perm. Qed.
+
+Theorem C10_rename_pav : forall f, injective f -> forall votes n,
+  ares_equiv (ren_ares f (pav votes n)) (pav (renap f votes) n).
+Proof. intros f Hf votes n. exact (pav_rename f Hf votes n). Qed.
+
+(* ---- ballot order for the approval rules (Proofs/ApprovalOrder_proofs.v): ProportionalApproval and
+   SequentialProportionalApproval return the SAME answer - winners in the same order, the same refusal (tied alternatives /
+   tie in a round) - whatever the insertion order of the approval profile; no hypothesis (weights of any sign, repeated
+   ballots, repeated candidates inside a ballot) *)
+Theorem C10_pav_order : forall votes votes' n, Permutation votes votes' -> pav votes' n = pav votes n.
+Proof. exact ApprovalOrder_proofs.pav_order. Qed.
+
+Theorem C10_spav_order : forall votes votes' n, Permutation votes votes' -> spav votes' n = spav votes n.
+Proof. exact ApprovalOrder_proofs.spav_order. Qed.
+
+Example C10_approval_order_example :
+  let v := [([1; 2]%positive, 3#1); ([2; 3]%positive, 2#1); ([3]%positive, 2#1); ([1; 4]%positive, 1#2)]%Q in
+  pav v 2 = AR_ok [Cand 2; Cand 3]%positive /\ pav (rev v) 2 = AR_ok [Cand 2; Cand 3]%positive /\
+  spav v 3 = Some [2; 3; 1]%positive /\ spav (rev v) 3 = Some [2; 3; 1]%positive /\
+  spav_round v [] = [(1%positive, 7#2); (2%positive, 5#1); (3%positive, 4#1); (4%positive, 1#2)]%Q /\
+  map fst (spav_round (rev v) []) = [1; 4; 3; 2]%positive.
+Proof. vm_compute. repeat split; reflexivity. Qed.
+
+(* ---- ballot order for the score family (Proofs/ScoreOrder_proofs.v): the aggregated scores of ScoreToSimpleVotes - every
+   configuration: sum / mean / lower median, the unscored-value rules, truncation, the minimum score count - end in the same
+   error, or are the same dictionary in another insertion order with == scores ([orelD Qeq]: distinct keys on both sides, every
+   candidate present in both or in neither, == values); hence ScoreVoting returns the same error or [res_equiv] selections *)
+From VL Require Import Proofs.ScoreOrder_proofs Proofs.MJOrder_proofs.
+Close Scope Q_scope.
+Close Scope Z_scope.
+Open Scope nat_scope.
+
+Theorem C10_score_to_simple_order : forall cf votes votes', Permutation votes votes' ->
+  orel (orelD Qeq) (score_to_simple cf votes) (score_to_simple cf votes').
+Proof. exact score_to_simple_order. Qed.
+
+Theorem C10_score_voting_order : forall cf votes votes' n, Permutation votes votes' ->
+  orel res_equiv (score_voting cf votes n) (score_voting cf votes' n).
+Proof. exact score_voting_order. Qed.
+
+(* MajorityJudgment, both tie-breakers (Proofs/MJOrder_proofs.v): the same error, or [res_equiv] selections *)
+Theorem C10_majority_judgment_order : forall plus cf votes votes' n, Permutation votes votes' ->
+  orel res_equiv (majority_judgment plus cf votes n) (majority_judgment plus cf votes' n).
+Proof. exact MJOrder_proofs.majority_judgment_order. Qed.
+
+Example C10_majority_judgment_order_example :
+  let cf := Build_score_cfg FMedianLow UNone 0%Z 0%Q 0%Q in
+  let v := [([(1%positive, 3#1); (2%positive, 2#1); (3%positive, 2#1)], 2%Z); ([(1%positive, 2#1); (2%positive, 3#1); (3%positive, 2#1)], 1%Z);
+            ([(1%positive, 2#1); (2%positive, 2#1); (3%positive, 1#1)], 2%Z)]%Q in
+  score_to_simple cf v = inl [(1%positive, 2#1); (2%positive, 2#1); (3%positive, 2#1)]%Q /\
+  majority_judgment true cf v 1 = inl [TieR [1; 2]]%positive /\ majority_judgment true cf (rev v) 1 = inl [TieR [1; 2]]%positive /\
+  majority_judgment false cf v 2 = inl [Cand 1; Cand 2]%positive /\ majority_judgment false cf (rev v) 2 = inl [Cand 1; Cand 2]%positive.
+Proof. vm_compute. repeat split; reflexivity. Qed.
+
+(* read off: every candidate has == aggregated scores in the two runs *)
+Theorem C10_score_to_simple_order_values : forall cf votes votes' agg agg', Permutation votes votes' ->
+  score_to_simple cf votes = inl agg -> score_to_simple cf votes' = inl agg' ->
+  NoDup (map fst agg) /\ NoDup (map fst agg') /\
+  forall c, match dget agg c, dget agg' c with Some x, Some y => (x == y)%Q | None, None => True | _, _ => False end.
+Proof.
+  intros cf votes votes' agg agg' H E E'. pose proof (score_to_simple_order cf votes votes' H) as R. rewrite E, E' in R. exact R.
+Qed.
+
+(* non-vacuity: the two orders give dictionaries in different orders whose values are == but not equal (2#4 vs 1#2: the
+   representative of a score is the first one inserted), and ties whose members are listed in different orders *)
+Example C10_score_order_example :
+  let cf := Build_score_cfg FMedianLow UNone 0%Z 0%Q 0%Q in
+  let v := [([(1%positive, 3#1); (3%positive, 2#4)], 1%Z); ([(1%positive, 1#2); (3%positive, 1#2)], 1%Z); ([(2%positive, 1#2)], 2%Z)]%Q in
+  score_to_simple cf v = inl [(1%positive, 1#2); (3%positive, 2#4); (2%positive, 1#2)]%Q /\
+  score_to_simple cf (rev v) = inl [(2%positive, 1#2); (1%positive, 1#2); (3%positive, 1#2)]%Q /\
+  score_voting cf v 1 = inl [TieR [1; 3; 2]]%positive /\ score_voting cf (rev v) 1 = inl [TieR [2; 1; 3]]%positive.
+Proof. vm_compute. repeat split; reflexivity. Qed.
+
+(* ================================================================ symmetric candidates (the closing sentence of the property)
+   A symmetry of an input: an involution t of the candidates (t (t c) = c, e.g. a transposition) such that the renamed input is
+   the same dictionary in another insertion order.  Composing order independence with renaming equivariance
+   (Proofs/Symmetric_proofs.v): a and t a are elected alike and tied alike / hold the same seats. *)
+From VL Require Import Proofs.Symmetric_proofs.
+Close Scope Q_scope.
+Close Scope Z_scope.
+Open Scope nat_scope.
+
+Theorem C10_symmetric_copeland : forall t, (forall c, t (t c) = c) -> forall v second_order n,
+  NoDup (map fst v) -> Permutation v (renp t v) -> forall a,
+  (In (Cand a) (copeland second_order v n) <-> In (Cand (t a)) (copeland second_order v n)) /\
+  ((exists T, In (TieR T) (copeland second_order v n) /\ In a T) <-> (exists T, In (TieR T) (copeland second_order v n) /\ In (t a) T)).
+Proof. intros t Ht v so n Hn Hp. exact (copeland_symmetric t Ht v so n (conj Hn Hp)). Qed.
+
+Theorem C10_symmetric_minimax : forall t, (forall c, t (t c) = c) -> forall v s n,
+  NoDup (map fst v) -> Permutation v (renp t v) -> forall a,
+  (In (Cand a) (minimax s v n) <-> In (Cand (t a)) (minimax s v n)) /\
+  ((exists T, In (TieR T) (minimax s v n) /\ In a T) <-> (exists T, In (TieR T) (minimax s v n) /\ In (t a) T)).
+Proof. intros t Ht v s n Hn Hp. exact (minimax_symmetric t Ht v s n (conj Hn Hp)). Qed.
+
+Theorem C10_symmetric_schulze : forall t, (forall c, t (t c) = c) -> forall v order n,
+  NoDup (map fst v) -> Permutation v (renp t v) -> (forall p k, In (p, k) v -> (0 <= k)%Z) -> incl (candidates v) order -> forall a,
+  (In (Cand a) (schulze v order n) <-> In (Cand (t a)) (schulze v order n)) /\
+  ((exists T, In (TieR T) (schulze v order n) /\ In a T) <-> (exists T, In (TieR T) (schulze v order n) /\ In (t a) T)).
+Proof. intros t Ht v o n Hn Hp Hnn Hi. exact (schulze_symmetric t Ht v o n (conj Hn Hp) Hnn Hi). Qed.
+
+(* a candidate with a symmetric twin is never THE Condorcet winner; the Kemeny answer and the Smith set are invariant *)
+Theorem C10_symmetric_condorcet_winner : forall t, (forall c, t (t c) = c) -> forall v,
+  NoDup (map fst v) -> Permutation v (renp t v) -> forall c, In c (condorcet_winner v) -> t c = c.
+Proof. intros t Ht v Hn Hp. exact (condorcet_winner_symmetric t Ht v (conj Hn Hp)). Qed.
+
+Theorem C10_symmetric_kemeny : forall t, (forall c, t (t c) = c) -> forall v n,
+  NoDup (map fst v) -> Permutation v (renp t v) -> ren_cres t (kemeny v n) = kemeny v n.
+Proof. intros t Ht v n Hn Hp. exact (kemeny_symmetric t Ht v n (conj Hn Hp)). Qed.
+
+Theorem C10_symmetric_smith : forall t, (forall c, t (t c) = c) -> forall v,
+  NoDup (map fst v) -> Permutation v (renp t v) -> (forall p k, In (p, k) v -> (0 <= k)%Z) -> forall a,
+  In a (smith_schwartz v true) <-> In (t a) (smith_schwartz v true).
+Proof. intros t Ht v Hn Hp Hnn. exact (smith_symmetric t Ht v (conj Hn Hp) Hnn). Qed.
+
+(* seats: QuotaDistributor / LargestRemainder (caps with symmetric lookups), the STV count and highest averages (caps and,
+   for highest averages, previous gains listed symmetrically, e.g. absent) *)
+Theorem C10_symmetric_quota_distributor : forall t, (forall c, t (t c) = c) -> forall quota accept_equal pol votes n prev caps s,
+  quota_ext quota -> NoDup (map fst votes) -> Permutation votes (renl t votes) -> NoDup (map fst prev) -> Permutation prev (renl t prev) ->
+  (forall c, dget caps (t c) = dget caps c) ->
+  qd_evaluate quota accept_equal pol votes n prev caps = QD_ok s -> forall a, kdget s (t a) = kdget s a.
+Proof. intros t Ht. exact (quota_distributor_symmetric t Ht). Qed.
+
+Theorem C10_symmetric_largest_remainder : forall t, (forall c, t (t c) = c) -> forall quota accept_equal pol votes n prev caps s,
+  quota_ext quota -> NoDup (map fst votes) -> Permutation votes (renl t votes) -> NoDup (map fst prev) -> Permutation prev (renl t prev) ->
+  (forall c, dget caps (t c) = dget caps c) ->
+  lr_evaluate quota accept_equal pol votes n prev caps = LR_ok s -> forall a, kdget s (t a) = kdget s a.
+Proof. intros t Ht. exact (largest_remainder_symmetric t Ht). Qed.
+
+Theorem C10_symmetric_stv : forall t, (forall c, t (t c) = c) -> forall cf votes n prev caps,
+  ballots_distinct votes -> Permutation votes (renv t votes) -> NoDup (map fst prev) -> Permutation prev (renl t prev) -> renl t caps = caps ->
+  forall a, dget (t_seats (stv cf votes n prev caps)) (t a) = dget (t_seats (stv cf votes n prev caps)) a.
+Proof. intros t Ht. exact (stv_symmetric t Ht). Qed.
+
+Theorem C10_symmetric_highest_averages : forall t, (forall c, t (t c) = c) -> forall (d : Z -> Q) votes n prev caps,
+  divisor_ok d -> (forall c v, In (c, v) votes -> (0 <= v)%Q) -> NoDup (map fst votes) -> (forall c, (0 <= dget_or prev c 0)%Z) ->
+  Permutation votes (renl t votes) -> renl t prev = prev -> renl t caps = caps ->
+  forall a, dget_or (st_totals (final_state d votes n prev caps)) (t a) 0%Z = dget_or (st_totals (final_state d votes n prev caps)) a 0%Z.
+Proof. intros t Ht. exact (highest_averages_symmetric t Ht). Qed.
+
+(* non-vacuity: the transposition (1 2); a pairwise dictionary in which 1 and 2 are symmetric (they tie each other, both beat 3) *)
+Definition swap12 (c : C) : C := if (c =? 1)%positive then 2%positive else if (c =? 2)%positive then 1%positive else c.
+Lemma swap12_involutive : forall c, swap12 (swap12 c) = c.
+Proof.
+  intros c. unfold swap12. destruct (c =? 1)%positive eqn:E1; [apply Pos.eqb_eq in E1; subst; reflexivity|].
+  destruct (c =? 2)%positive eqn:E2; [apply Pos.eqb_eq in E2; subst; reflexivity|]. rewrite E1, E2. reflexivity.
+Qed.
+Example C10_symmetric_example :
+  let v := mk_pv [(1,2,2);(2,1,2);(1,3,3);(3,1,1);(2,3,3);(3,2,1)]%Z in
+  NoDup (map fst v) /\ Permutation v (renp swap12 v) /\ renp swap12 v <> v /\
+  copeland false v 1 = [TieR [1; 2]]%positive /\ schulze v [1; 2; 3]%positive 2 = [Cand 1; Cand 2]%positive /\
+  Permutation [(1%positive, 5#1); (2%positive, 5#1); (3%positive, 2#1)]%Q (renl swap12 [(1%positive, 5#1); (2%positive, 5#1); (3%positive, 2#1)]%Q) /\
+  lr_evaluate (quota_fn (QNamed 1)) true PSubtract [(1%positive, 5#1); (2%positive, 5#1); (3%positive, 2#1)]%Q 3 [] []
+    = LR_ok [(K 1%positive, 1%Z); (K 2%positive, 1%Z); (K 3%positive, 1%Z)].
+Proof.
+  cbv zeta. split; [apply nodup_keys_b_sound; vm_compute; reflexivity|].
+  split; [apply list_perm_b_sound; vm_compute; reflexivity|]. split; [vm_compute; discriminate|].
+  split; [vm_compute; reflexivity|]. split; [vm_compute; reflexivity|]. split; [vm_compute; apply perm_swap|vm_compute; reflexivity].
+Qed.
+
+(* "f : C -> C injective" is no restriction with respect to "injective on the candidates present": a function injective on a
+   finite set S agrees on S with a globally injective one (and renaming an input only applies f to the candidates present) *)
+Theorem C10_rename_injective_extension : forall (f : C -> C) (S : list C),
+  (forall a b, In a S -> In b S -> f a = f b -> a = b) -> exists g, injective g /\ forall c, In c S -> g c = f c.
+Proof.
+  intros f S H. exists (extend f S). split; [intros a b; exact (extend_injective f S H a b)|exact (extend_agrees f S)].
+Qed.
+
+(* ---- non-vacuity: a renaming that REVERSES the order of the names 1..10 *)
+Definition rev10 (c : C) : C := if (c <=? 10)%positive then (11 - c)%positive else c.
+Lemma rev10_injective : injective rev10.
+Proof.
+  intros a b. unfold rev10. destruct (a <=? 10)%positive eqn:Ea, (b <=? 10)%positive eqn:Eb;
+    try apply Pos.leb_le in Ea; try apply Pos.leb_le in Eb; try apply Pos.leb_gt in Ea; try apply Pos.leb_gt in Eb; intros H; lia.
+Qed.
+
+(* ... exact equality is lost for [pav] itself: two winners with equal satisfaction drop come out in the order of the NAMES
+   (the canonical iteration order), so the renamed run lists them the other way round - equivalent, not equal *)
+Theorem C10_rename_pav_exact_refuted : exists f votes n, injective f /\ pav (renap f votes) n <> ren_ares f (pav votes n).
+Proof.
+  exists rev10, [([1; 2]%positive, 1%Q)], 2. split; [exact rev10_injective|]. vm_compute. discriminate.
+Qed.
+
+Example C10_rename_example :
+  let v := mk_pv [(1,2,3);(2,1,1);(2,3,3);(3,2,1);(3,1,3);(1,3,1);(1,4,4);(4,1,0);(2,4,4);(4,2,0);(3,4,2);(4,3,2)]%Z in
+  minimax Margins (renp rev10 v) 1 = [TieR [9; 8; 10]]%positive /\ minimax Margins v 1 = [TieR [2; 3; 1]]%positive /\
+  schulze (renp rev10 v) (map rev10 [1; 2; 3; 4]%positive) 1 = [TieR [10; 9; 8]]%positive /\
+  ranked_pairs WinningVotes (renp rev10 v) 2 = CR_ok [Cand 10; Cand 9]%positive /\
+  qd_evaluate (quota_fn (QNamed 7)) true PSubtract (renl rev10 [(1%positive, 30#1); (2%positive, 30#1); (3%positive, 7#1)]%Q) 3 [] []
+    = QD_ok [(K 10%positive, 1%Z); (K 9%positive, 1%Z); (KT [10%positive; 9%positive], 1%Z)] /\
+  t_seats (stv C10_stv_cf (renv rev10 C10_stv_votes) 2 [] (renl rev10 [(1%positive, 1%Z); (2%positive, 1%Z); (3%positive, 1%Z); (4%positive, 1%Z)]))
+    = [(10%positive, 1%Z); (9%positive, 1%Z)] /\
+  pav [([1; 2]%positive, 1%Q)] 2 = AR_ok [Cand 1; Cand 2]%positive /\
+  pav (renap rev10 [([1; 2]%positive, 1%Q)]) 2 = AR_ok [Cand 9; Cand 10]%positive.
+Proof. vm_compute. repeat split; reflexivity. Qed.
+
 Print Assumptions C10_count_characterisation.
 Print Assumptions C10_order.
 Print Assumptions C10_symmetric.
@@ -315,3 +630,42 @@ Print Assumptions C10_quota_distributor_order.
 Print Assumptions C10_largest_remainder_order.
 Print Assumptions C10_quota_fn_ext.
 Print Assumptions C10_stv_order.
+Print Assumptions C10_rename_condorcet_blocks.
+Print Assumptions C10_rename_condorcet_winner.
+Print Assumptions C10_rename_copeland.
+Print Assumptions C10_rename_minimax.
+Print Assumptions C10_rename_schulze.
+Print Assumptions C10_rename_ranked_pairs.
+Print Assumptions C10_rename_kemeny.
+Print Assumptions C10_rename_smith_schwartz.
+Print Assumptions C10_rename_quota_distributor.
+Print Assumptions C10_rename_largest_remainder.
+Print Assumptions C10_rename_quota_selector.
+Print Assumptions C10_rename_seats.
+Print Assumptions C10_rename_stv.
+Print Assumptions C10_rename_spav.
+Print Assumptions C10_rename_score_to_simple.
+Print Assumptions C10_rename_score_voting.
+Print Assumptions C10_rename_majority_judgment.
+Print Assumptions C10_pav_on_canon.
+Print Assumptions C10_rename_pav_on.
+Print Assumptions C10_pav_iteration_order.
+Print Assumptions C10_rename_pav.
+Print Assumptions C10_rename_pav_exact_refuted.
+Print Assumptions C10_rename_injective_extension.
+Print Assumptions C10_pav_order.
+Print Assumptions C10_spav_order.
+Print Assumptions C10_symmetric_copeland.
+Print Assumptions C10_symmetric_minimax.
+Print Assumptions C10_symmetric_schulze.
+Print Assumptions C10_symmetric_condorcet_winner.
+Print Assumptions C10_symmetric_kemeny.
+Print Assumptions C10_symmetric_smith.
+Print Assumptions C10_symmetric_quota_distributor.
+Print Assumptions C10_symmetric_largest_remainder.
+Print Assumptions C10_symmetric_stv.
+Print Assumptions C10_symmetric_highest_averages.
+Print Assumptions C10_score_to_simple_order.
+Print Assumptions C10_score_voting_order.
+Print Assumptions C10_score_to_simple_order_values.
+Print Assumptions C10_majority_judgment_order.
